@@ -46,7 +46,8 @@ def concretize(v, model, st, depth=0):
                     return {"__enum__": v.cls.key, "member": m}
             return {"__enum__": v.cls.key, "member": str(val)}
         if v.kind == "dt":
-            return {"__dt__": z3_to_py(ev(model, dt_ts(v.t)))}
+            from .values import dt_off
+            return {"__dt__": z3_to_py(ev(model, dt_ts(v.t))), "off": z3_to_py(ev(model, dt_off(v.t)))}
         if v.kind == "any":
             return {"__any__": str(ev(model, v.t))}
         if v.kind == "strlist":
